@@ -1,4 +1,5 @@
 import Op2Proofs.Bmp.Ops
+import Op2Proofs.Bmp.GenBridge
 import Op2Proofs.Bmp.RoundTrip
 import Op2Model.Gen.Layout
 /-!
